@@ -39,6 +39,7 @@ type K2 struct {
 	pointDraws []bool
 	npoint     int
 	Switches   int
+	foreign    int
 }
 
 type k2task struct {
@@ -49,6 +50,7 @@ type k2task struct {
 	done      bool
 	lockDepth int
 	panicMsg  string
+	gp        uintptr // identity of the task's goroutine
 }
 
 type gate struct{ r, w int }
@@ -106,7 +108,13 @@ func (k *K2) Add(name string, fn func()) {
 //go:norace
 func (k *K2) yield(site int) {
 	t := k.cur
-	if t == nil || t.lockDepth > 0 {
+	if t == nil || t.gp != getg() {
+		if t != nil {
+			k.foreign++
+		}
+		return
+	}
+	if t.lockDepth > 0 {
 		return
 	}
 	k.yields++
@@ -121,7 +129,7 @@ func (k *K2) yield(site int) {
 
 //go:norace
 func (k *K2) lockDelta(d int) {
-	if t := k.cur; t != nil {
+	if t := k.cur; t != nil && t.gp == getg() {
 		t.lockDepth += d
 	}
 }
@@ -132,7 +140,7 @@ func (k *K2) lockDelta(d int) {
 //go:norace
 func (k *K2) Point() {
 	t := k.cur
-	if t == nil || t.lockDepth > 0 {
+	if t == nil || t.gp != getg() || t.lockDepth > 0 {
 		return
 	}
 	k.points++
@@ -190,6 +198,7 @@ func (k *K2) Run(estYields, maxChanges int) {
 		t := t
 		wg.Add(1)
 		go func() {
+			k2setgp(t)
 			t.g.wait()
 			t.panicMsg = Catch(t.fn)
 			wg.Done() // ordinary synchronisation with the collector, after the task's last access
@@ -233,6 +242,14 @@ func (k *K2) Run(estYields, maxChanges int) {
 		t.g.close()
 	}
 }
+
+//go:norace
+func k2setgp(t *k2task) { t.gp = getg() }
+
+// Foreign is the number of yield points reached by goroutines that are not
+// tasks of this scheduler (started by the code under test); they run outside
+// the exclusive schedule.
+func (k *K2) Foreign() int { return k.foreign }
 
 //go:norace
 func k2done(t *k2task) bool { return t.done }
